@@ -54,6 +54,7 @@ def _gates() -> dict:
         'U3': G.U3Gate(), 'T': G.TGate(), 'H': G.HGate(), 'S': G.SGate(),
         'X': G.XGate(), 'SX': G.SXGate(), 'RZ': G.RZGate(),
         'RX': G.RXGate(), 'RY': G.RYGate(), 'Z': G.ZGate(),
+        'U1': G.U1Gate(),
         'CNOT': G.CNOTGate(), 'CZ': G.CZGate(), 'ISWAP': G.ISwapGate(),
         'SWAP': G.SwapGate(), 'CCX': G.CCXGate(), 'RZZ': G.RZZGate(),
         'U1qPi': U1qPiGate, 'U1qPi2': U1qPi2Gate,
